@@ -66,6 +66,13 @@ func randMop(rng *vhlib.Rng, name string, cur map[int]int) mop {
 		}
 	case "DeleteFunc":
 		o.Fn = kvNames[rng.Intn(len(kvNames))]
+		if rng.Chance(1, 3) {
+			o.Fn = liveNames[rng.Intn(len(liveNames))]
+		}
+	case "ForEach":
+		if rng.Bool() {
+			o.Fn = "live"
+		}
 	case "Unmarshal":
 		switch rng.Intn(5) {
 		case 0:
@@ -140,6 +147,18 @@ func genBMap(w *vhlib.Writer, rng *vhlib.Rng, thorough bool) {
 		for _, pair := range [][2]map[int]int{{{1: 0}, {2: 0}}, {{1: 0, 3: 4}, {3: 4, 5: 0}}, {{2: 0}, {2: 0}}, {{}, {0: 0}}} {
 			for _, name := range []string{"EqualByMap", "EqualByBMap", "EqualFuncByMap", "EqualFuncByBMap"} {
 				runMapCase(w, "bmap", wi, pair[0], []mop{{Name: name, Fn: "eq_std", Arg: pair[1], ArgOK: true}})
+			}
+		}
+	}
+	// callbacks that look at the live map: every live-size callback on maps of every size 0..6, through all four wrappers
+	for n := 0; n <= 6; n++ {
+		m := map[int]int{}
+		for k := 0; k < n; k++ {
+			m[k*3-2] = k - 2
+		}
+		for _, fn := range liveNames {
+			for wi := 0; wi < 4; wi++ {
+				runMapCase(w, "bmap-live", wi, m, []mop{{Name: "DeleteFunc", Fn: fn}, {Name: "Size"}, {Name: "ForEach", Fn: "live"}})
 			}
 		}
 	}
